@@ -182,6 +182,8 @@ def make_decoy (c):
         wires.append ((gen.wire (n, a, b, rad), {ej: 'J', 1 - ej: 'f%d' % j}))
     if c ['kind'] == 'long':
         u   = np.array ([0.2, 0.3, -1.0]) / np.linalg.norm ([0.2, 0.3, -1.0])
+        if (k + mask + c ['pos'] + c ['dend']) % 3 == 0:
+            u = np.array ([0.6, 0.8, 0.0])      # (moved far away below: the gap lies in the plane in which the coordinates are large)
         nea = J + u * 4 * tol
         far = nea + u * 3 * segl * 25
         a, b = (nea, far) if c ['dend'] == 0 else (far, nea)
@@ -196,8 +198,13 @@ def make_decoy (c):
         geo.append (g)
         for e in (0, 1):
             ends.append (dict (w = wi, e = e, node = nodes [e], gnd = False))
-    return dict ( f = 299.8 / lam, geo = geo, media = ([[0, 0, 0]] if gnd else None), src = [], loads = [], ends = ends
+    spec = dict ( f = 299.8 / lam, geo = geo, media = ([[0, 0, 0]] if gnd else None), src = [], loads = [], ends = ends
                 , tol = tol, style = 'auto')
+    if (k + mask + c ['pos'] + c ['dend']) % 3 == 0:
+        # the site written in map coordinates (hundreds of kilometres from the origin, moved there by an option): the
+        # end that stops 4 tolerances short is still a free end
+        spec ['tr'] = [['translate', 1.0, [448000.0, 5411000.0, 0.0], None]]
+    return spec
 # end def make_decoy
 
 def make_moved (c):
